@@ -32,7 +32,14 @@ def main():
         sys.setprofile(prof)
     try:
         mod = importlib.import_module(f"mcv.props.{prop.lower()}")
-        if "replay" in job:
+        if "replay" in job and isinstance(job["replay"], dict) and job["replay"].get("kind") == "__job__":
+            # replay of a whole job (a violation that needs the history the job builds up)
+            inner = dict(job["replay"]["job"])
+            inner["prop"] = prop.upper()
+            res = mod.run(inner)
+            want = tuple(job["replay"]["expect"])
+            res["violations"] = [v for v in res["violations"] if (v["site"], v["mode"]) == want]
+        elif "replay" in job:
             res = mod.replay(job["replay"], job)
         else:
             res = mod.run(job)
